@@ -58,6 +58,9 @@ def asm_forms(tn, name, cls, form):
         if tn in ("MMXM_MMX", "SSEM_SSE", "SSEM_AVX"):
             out = ["%s %s, %s, %s" % (v, s, R[1], R[2]), "%s %s, %s" % (v, s, R[2]),
                    "%s %s, %s" % (v, X[0] if form == "reg" else mem, R[2]), "%s %s, %s, %s, %s" % (v, R[0], s, R[1], R[2])]
+            if cls == "vex256":
+                # narrowing conversions take a ymm source and an xmm destination (vcvtpd2ps %ymm1, %xmm2; memory form with y suffix)
+                out += ["%s %s, %s" % (v, R[0], X[2])] if form == "reg" else ["%sy %s, %s" % (v, mem, X[2])]
         elif tn in ("IMM8_MMXM_MMX", "IMM8_SSEM_AVX"):
             out = ["%s $1, %s, %s, %s" % (v, s, R[1], R[2]), "%s $1, %s, %s" % (v, s, R[2]),
                    "%s $1, %s, %s, %s" % (v, X[0] if form == "reg" else mem, R[1], R[2])]
